@@ -49,11 +49,11 @@ PROPS = {
     'C04': dict(
         level='proof',
         level_text='Verus proves the integer conversions (load_le of a slice = sum of code_i * 2^(i*BITS); longer slices refused with SequenceTooLong), KmerStorage::{to_bitarray,from_bitslice}, from_raw (Some exactly when the image holds len symbols, bits read from the image) and into_raw together with the invariant head == 0 on to_owned / & / | / edits, plus the layout lemma from bit-level agreement to the documented symbol layout',
-        level_note=B_NOTE + '; u64/u128 storage impls and From<usize>/From<&Kmer> one-liners are covered by Kani word-level harnesses and bounded stand-ins',
+        level_note=B_NOTE + '; KmerStorage::{to_bitarray,from_bitslice} are verified for usize, u64 and u128 (two-word split lemma); From<&Kmer> for usize (generic Into) is covered by the bounded stand-in',
         technique='deductive verification (Verus) of extracted functions against contracts; head-offset ghost state',
         verus=[
-            dict(name='c04', mode='T', roots=['slice.try_usize', 'slice.try_usize.accept', 'slice.into_u8', 'kmer.storage', 'kmer.unsafe_from', 'seq.raw', 'slice.to_owned', 'slice.bitops', 'seq.bitops', 'seq.clone', 'seq.push', 'seq.prepend', 'seq.insert', 'seq.append', 'seq.truncate', 'seq.clear', 'seq.new', 'seq.with_capacity'] + REMOVE),
-            dict(name='c04', mode='R', roots=['slice.try_usize', 'slice.into_u8']),
+            dict(name='c04', mode='T', roots=['slice.try_usize', 'slice.try_usize.accept', 'slice.into_u8', 'kmer.storage', 'kmer.conv', 'kmer.unsafe_from', 'seq.raw', 'slice.to_owned', 'slice.bitops', 'seq.bitops', 'seq.clone', 'seq.push', 'seq.prepend', 'seq.insert', 'seq.append', 'seq.truncate', 'seq.clear', 'seq.new', 'seq.with_capacity'] + REMOVE),
+            dict(name='c04', mode='R', roots=['slice.try_usize', 'slice.into_u8', 'seq.into_usize']),
         ],
         standin=True,
     ),
@@ -93,7 +93,7 @@ PROPS = {
         level_text='Verus proves KmerIter::next (yields the k-mer with symbols index..index+K in canonical form, None exactly when index+K > n), kmers(), unsafe_from, TryFrom<&SeqSlice> (Ok exactly for length K, MismatchedLength otherwise), Deref for Kmer and the k-mer/sequence equality impls, generic in codec, K and storage',
         level_note=B_NOTE + '; K*BITS <= storage width is a precondition (the crate never evaluates its _ASSERT_K consts); FromStr/Display/From<Kmer> for Seq are glue covered by a bounded stand-in',
         technique='deductive verification (Verus) of extracted functions against contracts',
-        verus=[dict(name='c08', mode='T', roots=['kmer.iter.next', 'iter.ctors', 'kmer.try_from', 'kmer.deref', 'kmer.eq', 'kmer.len', 'iter.chunks.next'])],
+        verus=[dict(name='c08', mode='T', roots=['kmer.iter.next', 'iter.ctors', 'kmer.try_from', 'kmer.deref', 'kmer.eq', 'kmer.len', 'iter.chunks.next', 'kmer.conv', 'kmer.storage'])],
         standin=True,
     ),
     'C09': dict(
